@@ -381,7 +381,7 @@ func campaign(r *rep.Report, e rep.Env, via string) {
 			if via == "http" && g.Intn(25) == 0 {
 				c.Op = "rawBody"
 				c.Id = []string{"/api/loc/facts/add", "/api/json", "/api/yaml", "/api/loc/events/ingest", "/api/sys/util/batch", "/nowhere"}[g.Intn(6)]
-				c.Raw = []string{"", "[]", "[1,2]", "null", "\"str\"", "{", "location=H&fact=%7B%7D", "a: [b", "{\"uri\":5}", "{\"requests\":[5]}"}[g.Intn(10)]
+				c.Raw = []string{"", "[]", "[1,2]", "null", "\"str\"", "{", "location=H&fact=%7B%7D", "a: [b", "{\"uri\":5}", "{\"requests\":[5]}", "{\"requests\":[{\"uri\":5}]}", "{\"requests\":[{\"uri\":\"/api/loc/facts/query\",\"location\":\"H\",\"query\":{\"bogus\":\"q\\\"uote\"}}]}"}[g.Intn(12)]
 			}
 			if via != "loc" && c.Op != "rawBody" && g.Intn(30) == 0 {
 				c.Raw = []string{"", "[]", "5", "null", "\"s\"", "{\"a\":", "{\"rule\":5}"}[g.Intn(7)]
